@@ -281,6 +281,67 @@ def cacheOp (args : List String) : Option String :=
     let steps := traceOut fs CacheSM.init ops
     pure s!"{fList id steps} {fList (fun (e : String × Nat) => s!"{fS e.1} {e.2}") fin.log}") args
 
+/-- as `traceOut`, on the k-table cache (`stepK`) -/
+def traceOutK (fs : List Dir) : CSt → List COp → List String
+  | _, [] => []
+  | s, op :: ops =>
+    let r := stepK fs s op
+    s!"{fResp r.2} {r.1.log.length} {fList fS (r.1.dict.map (·.1))}" :: traceOutK fs r.1 ops
+
+/-- `c14.kcache fs ops`: a history of the k-table cache -/
+def kcacheOp (args : List String) : Option String :=
+  run (do
+    let fs ← listOf dirP
+    let ops ← listOf copP
+    let fin := CacheSM.runK fs CacheSM.init ops
+    let steps := traceOutK fs CacheSM.init ops
+    pure s!"{fList id steps} {fList (fun (e : String × Nat) => s!"{fS e.1} {e.2}") fin.log}") args
+
+/-! CIA cache state machine -/
+
+open Taurex.CiaSM in
+def cfileP : P CFile := do
+  let f ← nat; let id ← nat; let d ← str; let o ← str
+  pure { fmt := if f == 0 then CFmt.db else CFmt.cia, fileId := id, disc := d, obj := o }
+
+open Taurex.CiaSM in
+def cpathP : P CPath := do
+  let k ← nat
+  if k == 0 then do let p ← nat; pure (CPath.single p)
+  else do let ps ← listOf nat; pure (CPath.many ps)
+
+open Taurex.CiaSM in
+def ciaOpP : P CiaSM.Op := do
+  let c ← nat
+  match c with
+  | 0 => do let m ← str; pure (.get m)
+  | 1 => do let p ← cpathP; pure (.setPath p)
+  | 2 => do let m ← str; pure (.add m)
+  | _ => failure
+
+open Taurex.CiaSM in
+def fCResp : CiaSM.Resp → String
+  | .served o => s!"0 {o.id} {fS o.pair} {fOpt fN o.src}"
+  | .missing => "1"
+  | .done => "2"
+  | .dup => "3"
+
+open Taurex.CiaSM in
+def ciaTraceOut (fs : List CDir) : CiaSM.St → List CiaSM.Op → List String
+  | _, [] => []
+  | s, op :: ops =>
+    let r := CiaSM.step fs s op
+    s!"{fCResp r.2} {r.1.log.length} {fList fS (r.1.dict.map (·.1))}" :: ciaTraceOut fs r.1 ops
+
+/-- `c14.ciacache fs ops` → per step: response, #loads, dict keys; then the load log -/
+def ciaCacheOp (args : List String) : Option String :=
+  run (do
+    let fs ← listOf (listOf cfileP)
+    let ops ← listOf ciaOpP
+    let fin := CiaSM.run fs CiaSM.init ops
+    let steps := ciaTraceOut fs CiaSM.init ops
+    pure s!"{fList id steps} {fList (fun (e : String × Nat) => s!"{fS e.1} {e.2}") fin.log}") args
+
 def ops : List Op :=
   [("c14.sanitize", sanitizeOp), ("c14.names", namesOp), ("c14.stem", stemOp), ("c14.unit", unitOp),
    ("c14.dec_pickle", decPickleOp), ("c14.dec_hdf", decHdfOp), ("c14.dec_exo", decExoOp),
@@ -288,6 +349,6 @@ def ops : List Op :=
    ("c14.dec_kpickle", decPickleKOp), ("c14.dec_khdf", decHdfKOp),
    ("c14.enc_kpickle", encPickleKOp), ("c14.enc_khdf", encHdfKOp),
    ("c14.dec_cia_pickle", decPickleCOp), ("c14.dec_hitran", decHitranOp), ("c14.hitran_unified", hitranUnifiedOp), ("c14.enc_hitran", encHitranOp),
-   ("c14.cache", cacheOp)]
+   ("c14.cache", cacheOp), ("c14.kcache", kcacheOp), ("c14.ciacache", ciaCacheOp)]
 
 end Taurex.Ops.C14
